@@ -40,6 +40,9 @@ def main(tier="quick"):
     ok &= expect_violation("F7 layout table", "DTCWT2", d2, "Dims6OK", shards=1)
     ok &= expect_violation("F6 absent inputs", "DTCWT2", dict(d2, HWCodes={404, 608}), "InvAbsentOK", shards=1)
     ok &= expect_violation("F10 scat extension", "Scat", dict(SizeSet=models.rng(2, 16), CSet={1}, ExtFix=False), "SizeOK2", shards=1)
+    sgc = dict(CSet={1, 2}, Emit=False, ViewBug=True, PhaseBug=False)
+    ok &= expect_violation("ScatGrad view model", "ScatGrad", sgc, "StGrad", shards=1)
+    ok &= expect_violation("ScatGrad phase model", "ScatGrad", dict(sgc, ViewBug=False, PhaseBug=True), "StGrad", shards=1)
     cfg = os.path.join(scratch(), "neg-sess.cfg")
     tlc.write_cfg(cfg, dict(Threads={1, 2}, Mods={1}, Cfgs={1, 2}, Args={1, 2}, MaxStages=1, Depth=8, Memo=True, Bias=False), ["Deterministic"])
     res = tlc.run_one("Session", cfg, 1, "neg-sess", coverage=False, simulate="num=300", extra_args=["-depth", "12"], timeout=300)
@@ -63,6 +66,41 @@ def main(tier="quick"):
         print("Tables negative model failed to run: %r" % e)
         hit = False
     print("%-34s %s   (HeldStable with one output buffer per filter length)" % ("C18 shared-buffer model", "ok" if hit else "FAILED"))
+    ok &= hit
+
+    # ---- ScatGrad: the interpreted term table is bound to the layer (two table entries swapped -> the value comparison
+    # fails; a reference bias off by 0.1 % -> the layer's OWN finite differences side with its gradient: no verdict)
+    try:
+        from . import scatgrad
+        r0 = common.Report("selftest", tier)
+        real_tables, real_cfgs = scatgrad.tables, scatgrad._configs
+        scatgrad._configs = lambda t: real_cfgs(t)[:1]
+
+        def swapped(rep, t, cs):
+            tabs = real_tables(rep, t, cs)
+            for k, tab in tabs.items():
+                tab[1], tab[-1] = tab[-1], tab[1]
+            return tabs
+        scatgrad.tables = swapped
+        scatgrad.checks(r0, "C08", "quick", "value")
+        scatgrad.tables = real_tables
+        r1 = common.Report("selftest", tier)
+        real_interp = scatgrad.Interp.__init__
+
+        def biased(self, biort, qshift, b):
+            real_interp(self, biort, qshift, b * 1.001)
+        scatgrad.Interp.__init__ = biased
+        scatgrad.checks(r1, "C09", "quick", "gradient")
+        scatgrad.Interp.__init__ = real_interp
+        scatgrad._configs = real_cfgs
+        hit = len(r0.violations) > 0 and len(r1.violations) == 0 and r1.extra.get("scat_terms_forward_disagrees", 0) > 0
+        print("%-34s %s   (swapped table entries -> %d value deviations; reference bias off by 0.1%% -> %d 'forward disagrees' diagnostics, %d violations)"
+              % ("ScatGrad binding", "ok" if hit else "FAILED", len(r0.violations), r1.extra.get("scat_terms_forward_disagrees", 0), len(r1.violations)))
+        for v in r0.violations:
+            os.remove(v["replay"]) if os.path.exists(v["replay"]) else None
+    except Exception as e:   # noqa
+        print("ScatGrad binding failed to run: %r" % e)
+        hit = False
     ok &= hit
 
     # ---- (b) binding of the trace specifications
